@@ -5,6 +5,7 @@ import (
 	"fmt"
 	"os"
 	"path/filepath"
+	"strings"
 
 	"verif/checker/core"
 	"verif/checker/rules"
@@ -62,6 +63,21 @@ func writeManifest() error {
 	for _, x := range rules.NotApplicable {
 		if rules.Get(x[0]) == nil {
 			nas = append(nas, na{x[0], x[1]})
+		}
+	}
+	// every property that is neither claimed nor declared not applicable is listed as pending
+	if b, err := os.ReadFile(filepath.Join(core.VerifDir(), "properties.jsonl")); err == nil {
+		listed := map[string]bool{}
+		for _, x := range nas {
+			listed[x.PropertyID] = true
+		}
+		for _, line := range strings.Split(string(b), "\n") {
+			var rec struct {
+				ID string `json:"id"`
+			}
+			if json.Unmarshal([]byte(line), &rec) == nil && rec.ID != "" && rules.Get(rec.ID) == nil && !listed[rec.ID] {
+				nas = append(nas, na{rec.ID, "no rule set in this revision of the checker yet (planned: DESIGN.md §5); nothing is claimed for it"})
+			}
 		}
 	}
 	m := map[string]any{
